@@ -35,7 +35,7 @@ from copulas.bivariate import Bivariate, Clayton, Frank, Gumbel
 from copulas.multivariate import GaussianMultivariate, Multivariate, VineCopula
 from copulas.multivariate.tree import Tree, get_tree
 from copulas.utils import validate_random_state
-from vf.serial import call, show_call, canon, canon_unordered
+from vf.serial import call, show_call, canon, canon_unordered, nan_empty
 np.random.seed(1234)
 '''
 
@@ -64,26 +64,73 @@ def run_src(src, extra=''):
 
 
 class Evaluator:
-    """collects Coq expressions (deduplicated), evaluates them in one batch, answers string-equality queries"""
+    """Coq side of the correspondence, in one parallel batch:
+       goals  `A = B`  closed by `vm_compute. reflexivity.` (kernel-checked; nothing is printed: printing rationals with
+              1074-bit denominators is what costs time) - a failing file is split into one file per goal;
+       printed expressions (small ones: behaviour selectors) for the "is kind k preserved" predictions."""
+
+    HDR = ('From Coq Require Import List ZArith QArith Bool String.\n' + IMPORTS + '\nImport ListNotations.\n' + SCOPE +
+           'Set Printing Width 1000000.\nSet Printing Depth 1000000.\n')
 
     def __init__(self):
-        self.exprs, self.index, self.out = [], {}, None
+        self.exprs, self.index, self.out, self.errors = [], {}, None, {}
+        self.goals, self.gindex, self.gok, self.gerr = [], {}, None, {}
+        self.lits, self.litname = [], {}          # big literals are elaborated once per file (number notations are slow)
+        self.group, self.egroup, self.ggroup = 'misc', [], []
+
+    def lit(self, term):
+        if len(term) < 120:
+            return term
+        if term not in self.litname:
+            self.litname[term] = f'vflit_{len(self.lits)}'
+            self.lits.append(term)
+        return self.litname[term]
 
     def add(self, e):
         if e not in self.index:
             self.index[e] = len(self.exprs)
             self.exprs.append(e)
+            self.egroup.append(self.group)
         return self.index[e]
 
-    HDR = ('From Coq Require Import List ZArith QArith Bool String.\n' + IMPORTS + '\nImport ListNotations.\n' + SCOPE +
-           'Set Printing Width 1000000.\nSet Printing Depth 1000000.\n')
+    def goal(self, a, b):
+        if (a, b) not in self.gindex:
+            self.gindex[(a, b)] = len(self.goals)
+            self.goals.append((a, b))
+            self.ggroup.append(self.group)
+        return self.gindex[(a, b)]
 
-    def _batch(self, ctx, tag, groups):
-        """groups: list of lists of expression indices, one Coq file each; fills self.out; returns indices not evaluated"""
+    def _lits_of(self, text):
+        import re
+        return sorted({int(x) for x in re.findall(r'vflit_(\d+)', text)})
+
+    def _defs(self, texts):
+        need = sorted({i for t in texts for i in self._lits_of(t)})
+        return ''.join(f'Definition vflit_{i} := {self.lits[i]}.\n' for i in need)
+
+    def _bins(self, texts, groups, nfiles):
+        """whole groups (one real case = one group, sharing its literals) are spread over the files by size"""
+        by = {}
+        for i, g in enumerate(groups):
+            by.setdefault(g, []).append(i)
+        def gsize(idx):
+            ls = {k for i in idx for k in self._lits_of(texts[i])}
+            return sum(len(self.lits[k]) for k in ls) + sum(len(texts[i]) + 300 for i in idx)
+        order = sorted(by, key=lambda g: -gsize(by[g]))
+        nfiles = max(1, min(nfiles, len(texts) // 8))
+        bins, sizes = [[] for _ in range(nfiles)], [0] * nfiles
+        for g in order:
+            k = sizes.index(min(sizes))
+            bins[k] += by[g]
+            sizes[k] += gsize(by[g])
+        return [b for b in bins if b]
+
+    def _print_batch(self, ctx, tag, groups):
         import re
         rels = []
         for k, idx in enumerate(groups):
-            txt = self.HDR + ''.join(f'Definition vfcase_{i} := Eval vm_compute in ({self.exprs[i]}).\nPrint vfcase_{i}.\n' for i in idx)
+            txt = self.HDR + self._defs([self.exprs[i] for i in idx]) + \
+                ''.join(f'Definition vfcase_{i} := Eval vm_compute in ({self.exprs[i]}).\nPrint vfcase_{i}.\n' for i in idx)
             rel = f'Cases_C14_{tag}_{k}.v'
             ctx.write(rel, txt)
             rels.append(rel)
@@ -100,31 +147,65 @@ class Evaluator:
                         self.errors[i] = ('TIMEOUT ' if r['rc'] == 124 else '') + err
         return missing
 
+    def _goal_batch(self, ctx, tag, groups):
+        rels = []
+        for k, idx in enumerate(groups):
+            txt = self.HDR + self._defs([self.goals[i][0] + self.goals[i][1] for i in idx]) + \
+                ''.join(f'Lemma vfeq_{i} : ({self.goals[i][0]}) = ({self.goals[i][1]}).\nProof. vm_compute. reflexivity. Qed.\n' for i in idx)
+            rel = f'Cases_C14_{tag}_{k}.v'
+            ctx.write(rel, txt)
+            rels.append(rel)
+        failed = []
+        res = ctx.compile_parallel(rels, timeout=600)
+        ctx.extra.setdefault('coq_case_files', []).append({'tag': tag, 'files': len(rels), 'slowest_s': round(max([r['s'] for r in res] or [0]), 1),
+                                                           'total_s': round(sum(r['s'] for r in res), 1)})
+        for idx, r in zip(groups, res):
+            if r['ok']:
+                for i in idx:
+                    self.gok[i] = True
+            else:
+                err = '\n'.join(l for l in (r['err'] or '').split('\n') if 'Warning' not in l)[-500:]
+                for i in idx:
+                    failed.append(i)
+                    self.gerr[i] = ('TIMEOUT ' if r['rc'] == 124 else '') + err
+        return failed
+
     def run(self, ctx):
         self.out = [None] * len(self.exprs)
-        self.errors = {}
-        order = sorted(range(len(self.exprs)), key=lambda i: -len(self.exprs[i]))
-        nfiles = max(1, min(32, len(self.exprs) // 12))
-        bins = [[] for _ in range(nfiles)]
-        sizes = [0] * nfiles
-        for i in order:
-            k = sizes.index(min(sizes))
-            bins[k].append(i)
-            sizes[k] += len(self.exprs[i]) + 200
-        missing = self._batch(ctx, 'a', [b for b in bins if b])
-        if missing:      # isolate the expressions that do not evaluate (one file each)
+        self.gok = [False] * len(self.goals)
+        with ThreadPoolExecutor(2) as ex:
+            f1 = ex.submit(self._print_batch, ctx, 'p', self._bins(self.exprs, self.egroup, 10))
+            f2 = ex.submit(self._goal_batch, ctx, 'g', self._bins([a + ' ' + b for a, b in self.goals], self.ggroup, 22))
+            missing, failed = f1.result(), f2.result()
+        if missing:
             self.errors = {}
-            self._batch(ctx, 'b', [[i] for i in missing])
+            self._print_batch(ctx, 'pi', [[i] for i in missing])
+        if failed:      # isolate: one file per goal of the failing files
+            self.gerr = {}
+            still = self._goal_batch(ctx, 'gi', [[i] for i in failed])
+            # diagnostics for the goals that really fail: print both sides (bounded)
+            for i in still[:6]:
+                for side in self.goals[i]:
+                    self.add(side)
+            self.egroup += ['diag'] * (len(self.exprs) - len(self.egroup))
+            todo = [i for i in range(len(self.out), len(self.exprs))]
+            if todo:
+                self.out += [None] * len(todo)
+                self._print_batch(ctx, 'pd', [[i] for i in todo])
 
     def val(self, e):
-        return self.out[self.index[e]]
+        i = self.index.get(e)
+        return None if i is None or i >= len(self.out) else self.out[i]
 
     def err(self, e):
-        return self.errors.get(self.index[e], '')
+        return self.errors.get(self.index.get(e), '')
 
     def same(self, a, b):
         va, vb = self.val(a), self.val(b)
         return va is not None and vb is not None and va == vb
+
+    def holds(self, a, b):
+        return self.gok[self.gindex[(a, b)]]
 
 
 class Pending:
@@ -134,9 +215,8 @@ class Pending:
         self.ctx, self.E, self.items = ctx, E, []
 
     def eq(self, name, model_expr, expected_expr, detail, on_fail=None):
-        """obligation: vm_compute(model_expr) prints like vm_compute(expected_expr)"""
-        self.E.add(model_expr)
-        self.E.add(expected_expr)
+        """obligation: vm_compute(model_expr) = vm_compute(expected_expr), checked by the Coq kernel"""
+        self.E.goal(model_expr, expected_expr)
         self.items.append(('eq', name, model_expr, expected_expr, detail, on_fail))
 
     def later(self, fn):
@@ -148,13 +228,15 @@ class Pending:
                 it[1]()
                 continue
             _, name, a, b, detail, on_fail = it
-            va, vb = self.E.val(a), self.E.val(b)
-            ok = va is not None and vb is not None and va == vb
-            self.ctx.obligation(name, ok, 'correspondence',
-                                '' if ok else f'{detail}\n model   : {str(va)[:700]} {self.E.err(a)[-300:] if va is None else ""}\n'
-                                              f' expected: {str(vb)[:700]} {self.E.err(b)[-300:] if vb is None else ""}')
+            ok = self.E.holds(a, b)
+            msg = ''
+            if not ok:
+                va, vb = self.E.val(a), self.E.val(b)
+                msg = (f'{detail}\n model   : {str(va)[:700]}\n expected: {str(vb)[:700]}\n'
+                       f' {self.E.gerr.get(self.E.gindex[(a, b)], "")[-300:]}')
+            self.ctx.obligation(name, ok, 'correspondence', msg)
             if not ok and on_fail:
-                on_fail(va, vb)
+                on_fail()
 
 
 # =====================================================================================================
@@ -292,7 +374,7 @@ def uni_key(case, path, what, m, r, d, exc=None):
         if cls == 'Univariate' and opts.get('candidates') == 'name+instance' and type(r).__name__ == 'GaussianKDE' \
                 and getattr(r, 'bw_method', 0) is None and m._instance.bw_method is not None:
             return 'F15:kde-bw_method-dropped:wrapper-candidate-instance'
-        if cls == 'StudentTUnivariate' and kind == 'const' and what != 'logpdf' \
+        if cls == 'StudentTUnivariate' and kind == 'const' \
                 and r._constant_value == d['loc'] and m._constant_value != d['loc']:
             return 'F25:studentt-constant-roundtrip'
         if ':after-constant-fit' in case['key'] and all(k in m.__dict__ for k in S.OV_NAMES) \
@@ -365,6 +447,7 @@ def run_uni(ctx, pend, E, case, viol, tmpdir):
     import pickle
     from copulas.univariate import Univariate
     key = case['key']
+    E.group, L = key, E.lit
     env = run_src(case['src'])
     m, P, U, X = env['m'], env['P'], env['U'], env['X']
     am, why = safe_alpha(S.alpha_u, m)
@@ -373,7 +456,7 @@ def run_uni(ctx, pend, E, case, viol, tmpdir):
         return
     am0 = S.alpha_u(m, 'none')
     dres, d = S.result_term(m.to_dict, S.jv, 'jv')
-    pend.eq(f'corr:{key}:to_dict', f'to_dict_u {am}', dres, f'to_dict of {case["src"][-200:]}')
+    pend.eq(f'corr:{key}:to_dict', f'to_dict_u {L(am)}', L(dres), f'to_dict of {case["src"][-200:]}')
     ctx.case(key, {'class': case['cls'], 'options': case['opts'], 'data': case['kind'], 'n': case['n'],
                    'dict_keys': list(d) if isinstance(d, dict) else str(d)[:60]}, nontrivial=True)
     if not isinstance(d, dict):
@@ -388,7 +471,7 @@ def run_uni(ctx, pend, E, case, viol, tmpdir):
         why = '' if json_ok else 'json.loads(json.dumps(d)) is not the same value'
     except Exception as ex:       # noqa: BLE001
         json_ok, why = False, f'{type(ex).__name__}: {ex}'
-    pend.eq(f'corr:{key}:json_safe', f'json_safe {S.jv(d)}', 'true', 'the model says the dict is JSON-safe')
+    pend.eq(f'corr:{key}:json_safe', f'json_safe {L(S.jv(d))}', 'true', 'the model says the dict is JSON-safe')
     if not json_ok:
         viol.add(f'rt:{case["cls"]}:{case["kind"]}:json', f'{key}: dict does not survive JSON text: {why}',
                  case['src'] + 'd = m.to_dict(); d2 = json.loads(json.dumps(d))\nassert canon(d2) == canon(json.loads(json.dumps(d2))) and '
@@ -413,7 +496,7 @@ def run_uni(ctx, pend, E, case, viol, tmpdir):
         for n, r in enumerate(chain, 1):
             if isinstance(r, Exception):
                 if path != 'file' and n == 1:
-                    pend.eq(f'corr:{key}:{path}:from_dict-raises', f'from_dict_u {S.jv(d)}',
+                    pend.eq(f'corr:{key}:{path}:from_dict-raises', f'from_dict_u {L(S.jv(d))}',
                             f'(@Err uobj {S.ERR.get(type(r).__name__, "Unmodelled")})',
                             f'{path} round trip {n} raised {type(r).__name__}: {r}')
                 viol.add(uni_key(case, path, 'raises', m, None, d, r), f'{key}: {path} round trip #{n} raised {type(r).__name__}: {r}',
@@ -429,9 +512,9 @@ def run_uni(ctx, pend, E, case, viol, tmpdir):
                 ctx.obligation(f'corr:{key}:pickle-is-a-copy:{n}', ar == am, 'correspondence',
                                '' if ar == am else f'abstraction of the loaded object differs:\n loaded  : {ar[:600]}\n original: {am[:600]}')
             elif n == 1:
-                pend.eq(f'corr:{key}:{path}:from_dict', f'from_dict_u {S.jv(d)}', f'(Ok {ar})',
+                pend.eq(f'corr:{key}:{path}:from_dict', f'from_dict_u {L(S.jv(d))}', f'(Ok {L(ar)})',
                         f'state of the object rebuilt by Univariate.from_dict ({path})')
-                pend.eq(f'corr:{key}:{path}:to_dict-after', f'to_dict_u {ar}', dres, 'to_dict of the rebuilt object')
+                pend.eq(f'corr:{key}:{path}:to_dict-after', f'to_dict_u {L(ar)}', L(dres), 'to_dict of the rebuilt object')
             else:
                 a1 = alphas.get((path, 1))
                 ctx.obligation(f'corr:{key}:{path}:idempotent:{n}', ar == a1, 'correspondence',
@@ -439,7 +522,7 @@ def run_uni(ctx, pend, E, case, viol, tmpdir):
     # model: n round trips = one round trip (evaluated, not only proved)
     if ('dict', 1) in alphas and type(m).__name__ != 'Univariate':
         sm = S.alpha_s(m)
-        pend.eq(f'corr:{key}:rt_n', f'rt_n 3 {sm}', f'rt_n 1 {sm}', 'three model round trips = one')
+        pend.eq(f'corr:{key}:rt_n', f'rt_n 3 {L(sm)}', f'rt_n 1 {L(sm)}', 'three model round trips = one')
     # ---- phase 2: oracles on the real objects ----
     bm = uni_behaviour(m, P, U)
     real_equal = {}
@@ -496,7 +579,7 @@ def run_uni(ctx, pend, E, case, viol, tmpdir):
         r1 = chains['dict'][0]
         ar0 = S.alpha_u(r1, 'none')
         for k in UNI_KINDS:
-            ea, eb = f'q_u {ar0} {QK[k]}', f'q_u {am0} {QK[k]}'
+            ea, eb = f'q_u {L(ar0)} {QK[k]}', f'q_u {L(am0)} {QK[k]}'
             E.add(ea)
             E.add(eb)
 
@@ -590,12 +673,13 @@ def biv_cases(rng, quick):
 def run_biv(ctx, pend, E, case, viol, tmpdir):
     from copulas.bivariate import Bivariate
     key = case['key']
+    E.group, L = key, E.lit
     env = run_src(case['src'])
     m, P = env['m'], env['P']
     am = S.alpha_b(m)
     am0 = S.alpha_b(m, 'none')
     dres, d = S.result_term(m.to_dict, S.jv, 'jv')
-    pend.eq(f'corr:{key}:to_dict', f'to_dict_biv {am}', dres, 'Bivariate.to_dict')
+    pend.eq(f'corr:{key}:to_dict', f'to_dict_biv {L(am)}', L(dres), 'Bivariate.to_dict')
     if not isinstance(d, dict):
         return
     ctx.case(key, {'family': case['fam'], 'kind': case['kind'], 'seed': case['seed'], 'dict': {k: repr(v) for k, v in d.items()}},
@@ -605,7 +689,7 @@ def run_biv(ctx, pend, E, case, viol, tmpdir):
         json_ok, why = S.jv(d2) == S.jv(d), 'value changed'
     except Exception as ex:       # noqa: BLE001
         json_ok, why = False, f'{type(ex).__name__}: {ex}'
-    pend.eq(f'corr:{key}:json_safe', f'json_safe {S.jv(d)}', 'true', 'model: the dict is JSON-safe')
+    pend.eq(f'corr:{key}:json_safe', f'json_safe {L(S.jv(d))}', 'true', 'model: the dict is JSON-safe')
     if not json_ok:
         viol.add(f'rt:biv:{case["fam"]}:{case["kind"]}:json', f'{key}: the dict does not survive JSON text ({why})',
                  case['src'] + 'd = m.to_dict(); assert canon(json.loads(json.dumps(d))) == canon(d)\n')
@@ -624,19 +708,19 @@ def run_biv(ctx, pend, E, case, viol, tmpdir):
             ar = S.alpha_b(r)
             alphas[(path, n)] = ar
             if n == 1:
-                pend.eq(f'corr:{key}:{path}:from_dict', f'snd (from_dict_biv {w0} None {S.jv(d)})', f'(Ok {ar})',
+                pend.eq(f'corr:{key}:{path}:from_dict', f'snd (from_dict_biv {w0} None {L(S.jv(d))})', f'(Ok {L(ar)})',
                         f'state rebuilt by Bivariate.from_dict ({path})')
-                pend.eq(f'corr:{key}:{path}:class-cache', f'{S.WORLD_SHOW} (fst (from_dict_biv {w0} None {S.jv(d)}))',
+                pend.eq(f'corr:{key}:{path}:class-cache', f'{S.WORLD_SHOW} (fst (from_dict_biv {w0} None {L(S.jv(d))}))',
                         S.world_show_literal(), 'class-level _subclasses caches after the call')
-                pend.eq(f'corr:{key}:{path}:to_dict-after', f'to_dict_biv {ar}', dres, 'to_dict of the rebuilt copula')
+                pend.eq(f'corr:{key}:{path}:to_dict-after', f'to_dict_biv {L(ar)}', L(dres), 'to_dict of the rebuilt copula')
             else:
                 ctx.obligation(f'corr:{key}:{path}:idempotent:{n}', ar == alphas[(path, 1)], 'correspondence',
-                               f'round trip #{n}: {ar} vs #1: {alphas[(path, 1)]}')
+                               f'round trip #{n}: {L(ar)} vs #1: {alphas[(path, 1)]}')
             chain.append(r)
             prev = r
         chains[path] = chain
     if ('dict', 1) in alphas:
-        pend.eq(f'corr:{key}:rt_n', f'snd (rt_biv_n 3 {S.world_term()} {am})', f'(Ok {alphas[("dict", 1)]})', 'three model round trips = one')
+        pend.eq(f'corr:{key}:rt_n', f'snd (rt_biv_n 3 {S.world_term()} {L(am)})', f'(Ok {alphas[("dict", 1)]})', 'three model round trips = one')
     bm = biv_behaviour(m, P)
     dc = S.canon_unordered(S.canon(d))
     real_equal = {}
@@ -667,7 +751,7 @@ def run_biv(ctx, pend, E, case, viol, tmpdir):
     if ('dict', 1) in alphas:
         ar0 = S.alpha_b(chains['dict'][0], 'none')
         for k in BIV_KINDS:
-            ea, eb = f'q_b {ar0} {BK[k]}', f'q_b {am0} {BK[k]}'
+            ea, eb = f'q_b {L(ar0)} {BK[k]}', f'q_b {L(am0)} {BK[k]}'
             E.add(ea)
             E.add(eb)
 
@@ -681,7 +765,7 @@ def run_biv(ctx, pend, E, case, viol, tmpdir):
             if k not in ('sample', 'ppf'):      # ppf: the root finder may fail numerically (not modelled here; C08)
                 bk = bm[k]
                 exp = f'(ObsErr {S.ERR[bk[1]]})' if bk[0] == 'err' and bk[1] in S.ERR else None
-                e1 = f'match q_b {am0} {BK[k]} with ObsErr e => ObsErr e | _ => ObsNone end'
+                e1 = f'match q_b {L(am0)} {BK[k]} with ObsErr e => ObsErr e | _ => ObsNone end'
                 pend.eq(f'corr:{key}:raises:{k}', e1, exp or 'ObsNone', f'{k} on the original: real {S.show_call(bk)[:60]}')
 
 
@@ -898,7 +982,7 @@ def gm_key(case, path, what, m, r):
         if case['tag'] == 'kde-instance-bw' and all(getattr(u, 'bw_method', 0) is None for u in r.univariates) \
                 and all(u.bw_method == 0.3 for u in us_m):
             return case['known']
-        if case['tag'] == 'studentt-constant-column' and what != 'cdf' and r.univariates[-1]._constant_value != us_m[-1]._constant_value \
+        if case['tag'] == 'studentt-constant-column' and r.univariates[-1]._constant_value != us_m[-1]._constant_value \
                 and all(a.to_dict() == b.to_dict() for a, b in zip(us_m, r.univariates)):
             return case['known']
     if path == 'file' and what == 'raises' and case['tag'] == 'kde-instance-bw':
@@ -909,6 +993,7 @@ def gm_key(case, path, what, m, r):
 def run_gm(ctx, pend, E, case, viol, tmpdir):
     from copulas.multivariate import Multivariate
     key = case['key']
+    E.group, L = key, E.lit
     env = run_src(case['src'])
     m, P = env['m'], env['P']
     am, why = safe_alpha(S.alpha_g, m)
@@ -917,7 +1002,7 @@ def run_gm(ctx, pend, E, case, viol, tmpdir):
         return
     am0 = S.alpha_g(m, 'none')
     dres, d = S.result_term(m.to_dict, S.jv, 'jv')
-    pend.eq(f'corr:{key}:to_dict', f'to_dict_gm {am}', dres, 'GaussianMultivariate.to_dict')
+    pend.eq(f'corr:{key}:to_dict', f'to_dict_gm {L(am)}', L(dres), 'GaussianMultivariate.to_dict')
     ctx.case(key, {'options': case['opts'], 'table': case['shape'], 'univariates': [u['type'].rsplit('.', 1)[1] for u in d['univariates']]},
              nontrivial=True)
     try:
@@ -925,7 +1010,7 @@ def run_gm(ctx, pend, E, case, viol, tmpdir):
         json_ok, why = S.jv(d2) == S.jv(d), 'value changed'
     except Exception as ex:       # noqa: BLE001
         json_ok, why = False, f'{type(ex).__name__}: {ex}'
-    pend.eq(f'corr:{key}:json_safe', f'json_safe {S.jv(d)}', 'true', 'model: the dict is JSON-safe')
+    pend.eq(f'corr:{key}:json_safe', f'json_safe {L(S.jv(d))}', 'true', 'model: the dict is JSON-safe')
     if not json_ok:
         viol.add(f'rt:gm:{case["tag"]}:json', f'{key}: the dict does not survive JSON text ({why})',
                  case['src'] + 'd = m.to_dict(); assert canon(json.loads(json.dumps(d))) == canon(d)\n')
@@ -949,9 +1034,9 @@ def run_gm(ctx, pend, E, case, viol, tmpdir):
                 ctx.obligation(f'corr:{key}:pickle-is-a-copy:{n}', ar == am, 'correspondence',
                                '' if ar == am else f'loaded: {ar[:500]}\noriginal: {am[:500]}')
             elif n == 1:
-                pend.eq(f'corr:{key}:{path}:from_dict', f'from_dict_multivariate {S.jv(d)}', f'(Ok {ar})',
+                pend.eq(f'corr:{key}:{path}:from_dict', f'from_dict_multivariate {L(S.jv(d))}', f'(Ok {L(ar)})',
                         f'state rebuilt by Multivariate.from_dict ({path})')
-                pend.eq(f'corr:{key}:{path}:to_dict-after', f'to_dict_gm {ar}', dres, 'to_dict of the rebuilt model')
+                pend.eq(f'corr:{key}:{path}:to_dict-after', f'to_dict_gm {L(ar)}', L(dres), 'to_dict of the rebuilt model')
             else:
                 ctx.obligation(f'corr:{key}:{path}:idempotent:{n}', ar == alphas[(path, 1)], 'correspondence', 'round trip #n differs from #1')
             chain.append(r)
@@ -986,7 +1071,7 @@ def run_gm(ctx, pend, E, case, viol, tmpdir):
     if ('dict', 1) in alphas:
         ar0 = S.alpha_g(chains['dict'][0], 'none')
         for k in GM_KINDS:
-            ea, eb = f'q_g {ar0} {GK[k]}', f'q_g {am0} {GK[k]}'
+            ea, eb = f'q_g {L(ar0)} {GK[k]}', f'q_g {L(am0)} {GK[k]}'
             E.add(ea)
             E.add(eb)
 
@@ -1003,23 +1088,27 @@ def run_gm(ctx, pend, E, case, viol, tmpdir):
 # =====================================================================================================
 def vine_behaviour(v, Ms, seed=7):
     out = {}
-    for i, M in enumerate(Ms):
-        out[f'likelihood{i}'] = S.call(v.get_likelihood, M.copy())
-    v.set_random_state(seed)
-    out['sample'] = S.call(lambda: np.asarray(v.sample(3)))
+    with S.nan_empty():      # cells never written are NaN, not memory garbage (C17's F8/F10 are not this property's business)
+        for i, M in enumerate(Ms):
+            out[f'likelihood{i}'] = S.call(v.get_likelihood, M.copy())
+        v.set_random_state(seed)
+        out['sample'] = S.call(lambda: np.asarray(v.sample(3)))
     return out
 
 
 VINE_CHECK = {
-    'likelihood0': 'M = m.u_matrix[0:1].repeat(m.n_var, 0)\na, b = call(m.get_likelihood, M.copy()), call(r.get_likelihood, M.copy())\n',
-    'likelihood1': 'M = m.u_matrix[1:2].repeat(m.n_var, 0)\na, b = call(m.get_likelihood, M.copy()), call(r.get_likelihood, M.copy())\n',
-    'sample': 'm.set_random_state(7); r.set_random_state(7)\na, b = call(lambda: np.asarray(m.sample(3))), call(lambda: np.asarray(r.sample(3)))\n',
+    'likelihood0': ('M = m.u_matrix[0:1].repeat(m.n_var, 0)\nwith nan_empty():\n'
+                    '    a, b = call(m.get_likelihood, M.copy()), call(r.get_likelihood, M.copy())\n'),
+    'likelihood1': ('M = m.u_matrix[1:2].repeat(m.n_var, 0)\nwith nan_empty():\n'
+                    '    a, b = call(m.get_likelihood, M.copy()), call(r.get_likelihood, M.copy())\n'),
+    'sample': ('m.set_random_state(7); r.set_random_state(7)\nwith nan_empty():\n'
+               '    a, b = call(lambda: np.asarray(m.sample(3))), call(lambda: np.asarray(r.sample(3)))\n'),
 }
 
 
 def vine_cases(rng, quick):
     out = []
-    shapes = [(18, 4), (14, 3)] if quick else [(18, 4), (14, 3), (25, 5), (30, 4), (12, 3)]
+    shapes = [(12, 4), (10, 3)] if quick else [(12, 4), (10, 3), (20, 5), (25, 4), (12, 3)]
     for n, dd in shapes:
         z = rng.normal(size=(n, dd))
         for j in range(1, dd):
@@ -1037,6 +1126,7 @@ def vine_cases(rng, quick):
 def run_vine(ctx, pend, E, case, viol, tmpdir):
     from copulas.multivariate import Multivariate, VineCopula
     key = case['key']
+    E.group, L = key, E.lit
     try:
         env = run_src(case['src'])
     except Exception as ex:       # noqa: BLE001 - vine fitting has its own properties (C16, C17)
@@ -1048,7 +1138,7 @@ def run_vine(ctx, pend, E, case, viol, tmpdir):
         ctx.obligation(f'corr:{key}:abstraction', False, 'correspondence', why)
         return
     dres, d = S.result_term(m.to_dict, S.pv_dict, 'pv')
-    pend.eq(f'corr:{key}:to_dict', f'vine_to_dict {am}', dres, 'VineCopula.to_dict')
+    pend.eq(f'corr:{key}:to_dict', f'vine_to_dict {L(am)}', L(dres), 'VineCopula.to_dict')
     ctx.case(key, {'vine_type': case['vt'], 'table': case['shape'], 'seed': case['seed'], 'trees': len(m.trees),
                    'edges': [len(t.edges) for t in m.trees]}, nontrivial=True)
     # JSON: must NOT be possible (sets, Enum members) - the model says so
@@ -1057,11 +1147,11 @@ def run_vine(ctx, pend, E, case, viol, tmpdir):
         json_raises = None
     except Exception as ex:       # noqa: BLE001
         json_raises = type(ex).__name__
-    pend.eq(f'corr:{key}:not-json_safe', f'pv_json_safe {S.pv_dict(d)}', 'true' if json_raises is None else 'false',
+    pend.eq(f'corr:{key}:not-json_safe', f'pv_json_safe {L(S.pv_dict(d))}', 'true' if json_raises is None else 'false',
             f'json.dumps(vine dict): {json_raises or "succeeds"}')
     # generic entry point
     gres, g = S.result_term(lambda: Multivariate.from_dict(d), S.alpha_v, 'vine')
-    pend.eq(f'corr:{key}:Multivariate.from_dict', f'multivariate_from_dict_vine {S.pv_dict(d)}', gres, 'generic entry point on a vine dict')
+    pend.eq(f'corr:{key}:Multivariate.from_dict', f'multivariate_from_dict_vine {L(S.pv_dict(d))}', gres, 'generic entry point on a vine dict')
     if isinstance(g, Exception):
         k = 'F-C14c:multivariate-from_dict-vine-TypeError' if isinstance(g, TypeError) and 'vine_type' in str(g) else \
             f'rt:vine:{case["vt"]}:generic-dispatch:{type(g).__name__}'
@@ -1088,8 +1178,8 @@ def run_vine(ctx, pend, E, case, viol, tmpdir):
                 ctx.obligation(f'corr:{key}:{path}:pickle-is-a-copy:{n}', ar == am, 'correspondence',
                                '' if ar == am else 'abstraction of the loaded vine differs from the saved one')
             elif n == 1:
-                pend.eq(f'corr:{key}:dict:from_dict', f'vine_of_dict {S.pv_dict(d)}', f'(Ok {ar})', 'state rebuilt by VineCopula.from_dict')
-                pend.eq(f'corr:{key}:dict:to_dict-after', f'vine_to_dict {ar}', dres, 'to_dict of the rebuilt vine')
+                pend.eq(f'corr:{key}:dict:from_dict', f'vine_of_dict {L(S.pv_dict(d))}', f'(Ok {L(ar)})', 'state rebuilt by VineCopula.from_dict')
+                pend.eq(f'corr:{key}:dict:to_dict-after', f'vine_to_dict {L(ar)}', L(dres), 'to_dict of the rebuilt vine')
                 # re-linking, on the real objects
                 links = all(t.previous_tree is r.trees[i - 1] for i, t in enumerate(r.trees) if i > 0) and isinstance(r.trees[0].previous_tree, np.ndarray)
                 ctx.obligation(f'corr:{key}:dict:relinked', links, 'correspondence', 'previous_tree of tree k is not the object at k-1')
